@@ -1602,16 +1602,18 @@ func (vm *VM) run() (Addr, bool) {
 							vm.setString(1, out.String())
 						} else if vm.fn.Format == ast.FormatMarkdown && ast.Format(b) == ast.FormatHTML {
 							out := vm.renderer.Out().(*bytes.Buffer)
-							var err error
 							if vm.env.conv != nil {
-								err = vm.env.conv(out.Bytes(), call.renderer.out)
+								err := vm.env.conv(out.Bytes(), call.renderer.out)
+								if err != nil {
+									panic(&fatalError{env: vm.env, msg: err})
+								}
 							} else {
 								// There is no converter: show the Markdown code
 								// as showInHTML does for a markdown value.
-								err = htmlEscape(newStringWriter(call.renderer.out), out.String())
-							}
-							if err != nil {
-								panic(&fatalError{env: vm.env, msg: err})
+								err := htmlEscape(newStringWriter(call.renderer.out), out.String())
+								if err != nil {
+									panic(outError{err})
+								}
 							}
 						}
 					}
